@@ -25,7 +25,7 @@ class C19(Prop):
     id = "C19"
     prop_file = "Props/C19.v"
     rule = ("boundary and random interior values of each integer type, random non-NaN float/double bit patterns plus the edges of both ranges (zeros, subnormals, largest finite values, infinities), random IPv4/IPv6 addresses and the special IPv6 blocks (IPv4-mapped / -compatible, NAT64, loopback, unspecified, link-local, multicast, all ones), "
-            "Unicode strings mixing 1-4 byte code points (String, VarString), byte strings of length 0..255 (VarBytes), all bit positions x "
+            "Unicode strings mixing 1-4 byte code points (String, VarString; VarString also with leading / embedded / trailing NUL, blanks and control characters), byte strings of length 0..255 (VarBytes), all bit positions x "
             "random bytes (BitArray), each followed by random trailing bytes; observed to_bytes(), from_bytes().value, .size.  Non-trivial = "
             "value representable; distinct by (type, value, trailing).")
     assumptions = ["UTF-8 codec, socket.inet_* and struct double<->single conversion are CPython's; floats are compared by bit pattern"]
@@ -72,6 +72,10 @@ class C19(Prop):
             s = rand_text(rng, 12).replace("\0", "")
             cases.append({"kind": "String", "v": list(s.encode()), "trailing": tr()})
             s = rand_text(rng, 40)
+            if rng.random() < 0.3:
+                # a length-prefixed string may contain and end in anything: NUL, blanks, control characters
+                pad = rng.choice(["\0", "\0\0", " ", "\n", "\t", "\x7f"])
+                s = rng.choice([s + pad, pad + s, s[:len(s) // 2] + pad + s[len(s) // 2:], pad])
             if len(s.encode()) <= 255:
                 cases.append({"kind": "VarString", "v": list(s.encode()), "trailing": tr()})
             cases.append({"kind": "VarBytes", "v": [rng.randrange(256) for _ in range(rng.choice([0, 1, 2, 255, rng.randrange(256)]))],
